@@ -223,8 +223,12 @@ func genSignCase(t *core.Tape, uniq string, mods []string) *signCase {
 		if t.Chance(1, 2, "resources") {
 			c.Flags.Set("resources", filepath.Join(dir, "_CodeSignature", "CodeResources"))
 		}
-		if t.Chance(1, 3, "hardened-runtime") {
+		// (on by default: switching it off is the choice that has to travel)
+		switch t.Choose(3, "hardened-runtime") {
+		case 1:
 			c.Flags.Set("hardened-runtime", "true")
+		case 2:
+			c.Flags.Set("hardened-runtime", "false")
 		}
 	case "msi":
 		c.File = "pkg" + uniq + ".msi"
